@@ -5,7 +5,7 @@ VERIF = os.path.dirname(os.path.dirname(os.path.abspath(__file__)))
 EVIDENCE_DIR = os.path.join(VERIF, "evidence")
 REPLAY_DIR = os.path.join(VERIF, "replays")
 KNOWN = os.path.join(VERIF, "known_findings.jsonl")
-PY = os.path.join(VERIF, ".venv", "bin", "python")
+PY = sys.executable
 
 EXIT_OK, EXIT_VIOLATION, EXIT_HARNESS = 0, 1, 3
 NPROC = int(os.environ.get("VERIF_PROCS", str(min(16, os.cpu_count() or 1))))
